@@ -188,7 +188,7 @@ impl Monitor for C09 {
             }
         }
         if ce.items.len() == 1 && !ce.neg && ce.sub.is_none() {
-            if let ClassItem::Ch(x) = ce.items[0] {
+            if let (ClassItem::Ch(x), false) = (ce.items[0].clone(), c.flags.contains('x') && matches!(ce.items[0], ClassItem::Ch(' '))) {
                 // [c] matches the same characters as the literal c
                 let lit = Node::Char(x).render();
                 if let Ok(Ok(r3)) = engine::compile(&format!("^{}$", lit), &c.flags, c.dialect) {
@@ -214,7 +214,7 @@ impl Monitor for C09 {
     fn workload(&self, w: &Work, emit: &mut dyn FnMut(Case)) -> J {
         let n = w.share(16_000, 16_000);
         let mut rng = w.rng("C09", 1);
-        let alpha: Vec<char> = vec!['a', 'b', 'z', 'A', 'Z', '0', '9', ' ', '-', '^', ']', '[', '\\', '\n', '\u{e9}', '\u{3b1}', '\u{3a9}', '\u{416}', '\u{2028}', '\u{d7ff}', '\u{e000}', '\u{ffff}', '\u{10000}', '\u{10400}', '\u{10ffff}', '\u{0}'];
+        let alpha: Vec<char> = vec!['a', 'b', 'z', 'A', 'Z', '0', '9', ' ', ' ', '\t', '-', '^', ']', ']', '[', '\\', '\n', '\u{e9}', '\u{3b1}', '\u{3a9}', '\u{416}', '\u{2028}', '\u{d7ff}', '\u{e000}', '\u{ffff}', '\u{10000}', '\u{10400}', '\u{10ffff}', '\u{0}'];
         let cfg = GenCfg::std(&alpha);
         for k in 0..n {
             let ce = {
@@ -222,7 +222,8 @@ impl Monitor for C09 {
                 g.class(if k % 3 == 0 { 0 } else { 1 })
             };
             let node = Node::Class(ce);
-            let mut c = Case::new(&node, if k % 10 == 9 { "i" } else { "" }, "");
+            // flag x must leave class members alone (whitespace, escaped brackets inside a class)
+            let mut c = Case::new(&node, if k % 10 == 9 { "i" } else if k % 10 == 8 || k % 10 == 3 { "x" } else { "" }, "");
             c.aux = Some(if w.quick() { format!("quick:{}", rng.next() % 1000) } else { "all".to_string() });
             emit(c);
         }
@@ -346,6 +347,22 @@ impl Monitor for C10 {
                 if engine::is_match(&r2, &buf).ok() != Some(oracle(*ch)) {
                     return Outcome::Violated(vec![Finding::new("escape_membership_differs", format!("engine: U+{:04X} inside [..]", *ch as u32), "same membership as outside a class")]);
                 }
+            }
+        }
+        // two escapes in one class expression denote the union: pair this escape with another one
+        {
+            let all = all_escapes();
+            let other = &all[(crate::gen::hash_str(p) as usize) % all.len()];
+            if let (Some(o2), Ok(Ok(r3))) = (escape_oracle(other), engine::compile(&format!("^[{}{}]$", p, other), "", c.dialect)) {
+                for ch in chars.iter().step_by(if aux == "all" { 61 } else { 3 }) {
+                    buf.clear();
+                    buf.push(*ch);
+                    let exp = oracle(*ch) || o2(*ch);
+                    if engine::is_match(&r3, &buf).ok() != Some(exp) {
+                        return Outcome::Violated(vec![Finding::new("escape_membership_differs", format!("engine: U+{:04X} in [{}{}] = {}", *ch as u32, p, other, !exp), format!("data: union of the two escapes = {}", exp))]);
+                    }
+                }
+                obs.count("escape_pairs_in_one_class_checked");
             }
         }
         obs.nontrivial(c.key());
